@@ -705,6 +705,7 @@ func runC09(r *Run) {
 		}
 	}
 	c09Huge(r)
+	c09TwoEncoders(r)
 	seen := map[string]bool{}
 	for _, h := range hs {
 		k := h.key()
@@ -754,6 +755,91 @@ func c09Huge(r *Run) {
 		}
 		for _, f := range fails {
 			r.Fail(-1, f[0], f[1], map[string]any{"history": desc})
+		}
+	}
+}
+
+// c09TwoEncoders: several Encoders alive at once on one goroutine, created at different moments
+// (some after another one's Flush), fed in turn.  Each writer must hold exactly what its own
+// history alone gives: an encoder's pending records are its own.
+func c09TwoEncoders(r *Run) {
+	n := r.N(12, 120)
+	for it := 0; it < n; it++ {
+		ne := 2 + r.Rng.Intn(2)
+		hs := make([]*w9Whist, ne)
+		ws := make([]*w9RecWriter, ne)
+		encs := make([]w9Wenc, ne)
+		kind, size := 1+r.Rng.Intn(2), []int{0, 16, 64, 300, 10000}[r.Rng.Intn(5)]
+		for e := range hs {
+			hs[e] = &w9Whist{Kind: kind, Codec: codecNames[r.Rng.Intn(3)], Size: size}
+			if r.Rng.Intn(2) == 0 {
+				hs[e].Codec = hs[0].Codec
+			}
+		}
+		born := 0
+		start := func(e int) bool {
+			ws[e] = &w9RecWriter{failAt: -1}
+			enc, err, pn := w9NewWenc(kind, ws[e], hs[e].Codec, size)
+			if err != nil || pn != nil {
+				r.Fail(-1, "constructor", fmt.Sprintf("NewEncoderFor failed on a working writer while %d other encoders are alive: err=%v panic=%v", e, err, pn), nil)
+				return false
+			}
+			encs[e] = enc
+			return true
+		}
+		if !start(0) {
+			continue
+		}
+		born = 1
+		steps := 6 + r.Rng.Intn(30)
+		var order []string
+		ok := true
+		for st := 0; st < steps && ok; st++ {
+			e := r.Rng.Intn(born)
+			var o w9Wop
+			if r.Rng.Intn(4) == 0 {
+				o = w9Wop{Flush: true}
+			} else {
+				o = w9GenRecord(r, kind, 1+r.Rng.Intn(40))
+			}
+			err, pn := w9CallOp(encs[e], o)
+			hs[e].Ops = append(hs[e].Ops, o)
+			order = append(order, fmt.Sprintf("%d:%s", e, w9OpName(o)))
+			if err != nil || pn != nil {
+				r.Fail(-1, "call-failed", fmt.Sprintf("encoder %d of %d alive, call %s: err=%v panic=%v", e, born, w9OpName(o), err, pn), map[string]any{"order": order})
+				ok = false
+			}
+			// a further encoder is born after this call (often right after a Flush)
+			if born < ne && (o.Flush || r.Rng.Intn(5) == 0) {
+				if !start(born) {
+					ok = false
+					break
+				}
+				order = append(order, fmt.Sprintf("new:%d", born))
+				born++
+			}
+		}
+		if !ok {
+			continue
+		}
+		for e := 0; e < born; e++ {
+			if err, pn := w9CallOp(encs[e], w9Wop{Flush: true}); err != nil || pn != nil {
+				r.Fail(-1, "call-failed", fmt.Sprintf("final Flush of encoder %d: err=%v panic=%v", e, err, pn), map[string]any{"order": order})
+			}
+			hs[e].Ops = append(hs[e].Ops, w9Wop{Flush: true})
+		}
+		r.Count(fmt.Sprintf("several-encoders/%d", born))
+		for e := 0; e < born; e++ {
+			closed, _, _ := w9SpecGroups(kind, size, hs[e].Ops)
+			desc := map[string]any{"encoders_alive": born, "this_encoder": e, "interleaving": order, "history_of_this_encoder": w9DescribeHist(hs[e])}
+			c, err := parseContainer(ws[e].acc)
+			if err != nil {
+				r.Fail(-1, "length-mismatch", fmt.Sprintf("with %d encoders alive, the output of encoder %d does not parse as a container: %v", born, e, err), desc)
+				continue
+			}
+			w9CompareBlocks(c, closed, func(k, what string) {
+				r.Fail(-1, k, fmt.Sprintf("with %d encoders alive, encoder %d: %s", born, e, what), desc)
+			})
 		}
 	}
 }
